@@ -29,7 +29,7 @@ LEAN_MODULES = ['MpycV.Props.C25']
 LEAN_NAMESPACES = ['MpycV.C25']
 REQUIRED_THEOREMS = [
     'is_prime_no_false_negative', 'is_prime_trial_division_exact', 'is_prime_partial',
-    'next_prime_spec', 'prev_prime_spec', 'invert_spec', 'gcdext_bezout', 'jacobi_eq', 'legendre_eq',
+    'next_prime_spec', 'prev_prime_spec', 'invert_spec', 'gcdext_bezout', 'gcdext_normalised', 'jacobi_eq', 'legendre_eq',
     'kronecker_eq', 'isqrt_spec', 'iroot_spec', 'is_square_spec', 'factor_prime_power_sound',
     'ratrec_sound', 'powMod_eq',
 ]
@@ -46,9 +46,9 @@ EXPLANATION = ('All clauses have theorems except: "composite => is_prime returns
                'code (random Miller-Rabin bases): proved are no-false-negatives for every base list, exactness of '
                'the trial-division stage and soundness of a False answer (is_prime_partial); the 4^-n error bound '
                'is quoted, not proved. next_prime/prev_prime/factor_prime_power are proved relative to a correct '
-               'primality oracle. gcdext: Bezout/gcd proved for all inputs, the GMP normalisation of (s, t) is '
-               'kernel-checked as a table for |a|,|b| <= B and validated beyond by the oracle. '
-               'factor_prime_power/ratrec completeness are validated by the oracle only.')
+               'primality oracle. gcdext: Bezout/gcd and the GMP normalisation of (s, t) are proved for all integers. '
+               'factor_prime_power / ratrec: soundness proved (a returned value is correct), completeness (a valid input '
+               'is never rejected) is validated by the oracle only.')
 ASSUMPTIONS = [
     'gmpy2 is not installed / MPYC_NOGMPY=1: the pure-Python stubs are the code under test',
     'CPython builtins pow(a,e,m), math.isqrt, math.gcd, int.bit_length, divmod behave as their models '
